@@ -8,14 +8,14 @@ from props import c02
 ID = 'C08'
 LEVEL = 'model_checking'
 TECHNIQUE = 'symbolic execution of rustc MIR into integer SMT (z3 5.1 NIA); tick->price as an uninterpreted strictly monotone function'
-FUNCTIONS = ['pinocchio::instructions::{increase_liquidity, increase_liquidity_v2, decrease_liquidity, decrease_liquidity_v2, increase_liquidity_by_token_amounts_v2}::handler (handler mode)', 'manager::liquidity_manager::calculate_liquidity_token_deltas', 'pinocchio::ported::manager_liquidity_manager::pino_calculate_liquidity_token_deltas',
+FUNCTIONS = ['pinocchio::instructions::{increase_liquidity, increase_liquidity_v2, decrease_liquidity, decrease_liquidity_v2, increase_liquidity_by_token_amounts_v2, reposition_liquidity_v2}::handler (handler mode)', 'manager::liquidity_manager::calculate_liquidity_token_deltas', 'pinocchio::ported::manager_liquidity_manager::pino_calculate_liquidity_token_deltas',
              'math::token_math::estimate_max_liquidity_from_token_amounts', 'math::token_math::get_amount_delta_a/b']
 BOUNDS = ['loop-free; all in-bound prices, all tick pairs lower<upper within [MIN_TICK, MAX_TICK], |liquidity_delta| all i128, token maxima all u64']
 ASSUMPTIONS = c02.ASSUMPTIONS + [
     'T1: sqrt_price_from_tick_index is strictly increasing with range [MIN_SQRT_PRICE, MAX_SQRT_PRICE] (decided in C09), modelled as an uninterpreted function with monotonicity instantiated on the queried ticks',
     'pool invariant linking tick and price: p(tick_current) <= sqrt_price <= p(tick_current+1) (equality on the right = shifted state after a downward crossing)',
     'Pinocchio byte accessors of MemoryMappedPosition return the field they decode (decided in C12)']
-OUTSIDE = ['K12 (256-bit division kernel)', 'reposition_liquidity_v2 handler body (its range validation is in C18, its account checks in C04/C15)']
+OUTSIDE = ['K12 (256-bit division kernel)']
 EXPLANATION = 'MIR of the Anchor and Pinocchio delta functions executed against the proved delta leaf specs; results compared with the price-based exact amounts by cross-multiplication'
 
 MINP, MAXP = SP.MINP, SP.MAXP
